@@ -421,6 +421,8 @@ function body(input) {
         const out = [];
         projection(data, input, '$', out);
         for (const o of out.slice(0, 2)) V('C03', `parsed data is not a projection of the input: ${o}; data=${show(data)} (${tag})`);
+        // "consists only of declared parts of the input": the data carries no key the type does not declare at that position (reference: the spec)
+        if (!out.length && job.spec && !noExtra(job.spec, data)) V('C03', `parsed data carries a key the type does not declare there: data=${show(data)} (${tag})`);
         let v2;
         try { v2 = parser.validate(data, opts); } catch (e) { if (e instanceof $S.NeedsRefinement || e instanceof $S.Unmodelled || e instanceof $S.Infeasible) throw e; v2 = 'throws ' + e.message; }
         if (v2 !== true) V('C03', `parsed data ${show(data)} is not accepted by the same validator (${v2}) (${tag})`);
